@@ -291,6 +291,9 @@ func (sm *Str2Str) LoadFromMap(m map[string]string) error {
 
 // Get ...
 func (sm *Str2Str) Get(k string) (string, bool) {
+	if sm.strMap == nil || sm.strStore == nil {
+		return "", false // never loaded
+	}
 	if idx, ok := sm.strMap.Get(k); ok {
 		v := sm.strStore.Get(idx)
 		// TODO: any check?
@@ -301,5 +304,8 @@ func (sm *Str2Str) Get(k string) (string, bool) {
 
 // Len returns the size of map
 func (sm *Str2Str) Len() int {
+	if sm.strMap == nil {
+		return 0 // never loaded
+	}
 	return sm.strMap.Len()
 }
